@@ -318,6 +318,27 @@ class World:
         self.stats['state_changes'] += 1
 
     # ---- variables (every type, scaled and unscaled)
+    def _handle_ok(self, t, k, kw):
+        """Is (type, surface, arguments) of an earlier handle still a valid
+        variable on the lens as it is now?"""
+        m = self.model
+        if t == 'radius':
+            return 1 <= k <= m.n - 2
+        if t == 'conic':
+            return 1 <= k <= m.n - 2 and not m.is_plane(k)
+        if t == 'thickness':
+            return 0 <= k <= m.n - 2 and not (k == 0 and m.infinite_object())
+        if t == 'index':
+            return 0 <= k <= m.n - 2
+        if t == 'asphere_coeff':
+            return 1 <= k <= m.n - 2 and \
+                m.surfs[k]['kind'] == 'even_asphere' and \
+                kw['coeff_number'] < len(m.surfs[k]['coeffs'] or [])
+        if t in ('tilt', 'decenter'):
+            return 1 <= k <= m.n - 1
+        want = 'polynomial' if t == 'polynomial_coeff' else 'chebyshev'
+        return 1 <= k <= m.n - 2 and m.surfs[k]['kind'] == want
+
     def op_var(self, op):
         from optiland.optimization.variable import Variable
         self.need_lens()
@@ -368,9 +389,29 @@ class World:
             field = 'coeffs'
         else:
             raise ValueError(t)
+        var = None
+        if op.get('reuse'):
+            # a long-lived handle: the Variable made by an earlier step (same
+            # type, any edits in between) is updated again
+            for h in reversed(getattr(self, 'handles', [])):
+                if h['lens'] is self.lens and h['t'] == t and \
+                        self._handle_ok(t, h['k'], h['kw']):
+                    k, kw, scaled, var = h['k'], dict(h['kw']), h['scaled'], \
+                        h['var']
+                    if t in ('tilt', 'decenter'):
+                        field = {'tilt': 'r', 'decenter': 'd'}[t] + kw['axis']
+                    self.probe('var_handle_reused')
+                    break
         self.target = (field, k if field != 'z' else None)
-        var = self.call(Variable, self.lens, t, apply_scaling=scaled,
-                        surface_number=k, **kw)
+        if var is None:
+            var = self.call(Variable, self.lens, t, apply_scaling=scaled,
+                            surface_number=k, **kw)
+            if not hasattr(self, 'handles'):
+                self.handles = []
+            self.handles.append({'lens': self.lens, 't': t, 'k': k,
+                                 'kw': dict(kw), 'scaled': scaled,
+                                 'var': var})
+            del self.handles[:-6]
         self.call(var.update, v)
         got = self.call(lambda: var.value)
         self.stats['state_changes'] += 1
@@ -1519,6 +1560,8 @@ def gen_edit(ch, w, sw):
         if t in ('polynomial_coeff', 'chebyshev_coeff'):
             op['i'] = ch.randint(0, 3)
             op['j'] = ch.randint(0, 3)
+        if ch.side(f'var-reuse:{w.stats["steps"]}').chance(0.4):
+            op['reuse'] = True
         return op
     if kind == 'pickup':
         if n < 4:
